@@ -125,6 +125,36 @@ pub fn c15(rec: &mut Rec, lm: &Landmarks, rng: &mut Rng, thorough: bool) {
                         };
                         m.series_new(start, end, ns_dur(step * tick), incl);
                         m.drain(40);
+                        // the same series consumed with nth(): landing on the last item, one past it, in two hops
+                        // (only when the end is given in the start's scale: otherwise the span is measured in the end's
+                        // scale and may differ by a leap second, i.e. by millions of items)
+                        if si == 0 && end.time_scale == start.time_scale {
+                            let count = if incl { span / step + 1 } else { (span + step - 1) / step } as usize;
+                            m.series_new(start, end, ns_dur(step * tick), incl);
+                            match combo % 4 {
+                                0 if count > 0 => {
+                                    m.nth(count - 1);
+                                    m.next();
+                                }
+                                1 => {
+                                    m.nth(count);
+                                    m.next();
+                                }
+                                2 if count > 1 => {
+                                    m.nth(count / 2 - if count / 2 > 0 { 1 } else { 0 });
+                                    m.nth(count - count / 2 - 1);
+                                    m.next();
+                                }
+                                _ => {
+                                    // step_by(2) is nth(1) repeated
+                                    m.next();
+                                    let mut guard = 0;
+                                    while m.nth(1) && guard < 40 {
+                                        guard += 1;
+                                    }
+                                }
+                            }
+                        }
                     }
                 }
             }
